@@ -147,6 +147,8 @@ def parity(t, case=None):
             if case[t]:
                 return [(0, frozenset())]
             return [(x[0] ^ y[0], x[1] ^ y[1]) for x in parity(args[0], case) for y in parity(args[1], case)]
+        if re.search(r'::rem_euclid$|ops::Rem::rem$|Integer::mod_floor$', nm) and len(args) == 2 and TB.deref(args[1]) == ('const', 2):
+            return parity(args[0], case)
         if re.search(r'ops::Neg::neg$', nm) and len(args) == 1:
             return parity(args[0], case)
     if _is(t, 'un') and t[1] == 'Neg':
